@@ -83,6 +83,10 @@ def nonempty_test(d):
         zero = ("const", 0, "u64")
         if a == zero or b == zero:
             x = b if a == zero else a
+            ts = or_terms(x)
+            if len(ts) > 1:
+                # (t1 | t2 | ..) != 0  <=>  some ti != 0: a union of terms tested at once
+                return ("multi", tuple(ts)), d[1] == "Ne"
             return factors(x), d[1] == "Ne"
     return None
 
@@ -109,10 +113,20 @@ def bool_query_terms(tree):
                     continue
                 term, pos = t
                 taken_true = not (e[2] != "else" and 0 in e[2])
-                seen[term] = taken_true if pos else (not taken_true)
+                val = taken_true if pos else (not taken_true)
+                if isinstance(term, tuple) and term and term[0] == "multi":
+                    for t1 in term[1]:
+                        all_terms.add(t1)
+                        if not val:
+                            seen[t1] = False
+                    if val:
+                        seen[("some-of", term[1])] = True
+                    continue
+                seen[term] = val
         ret = unstamp(path_value(last[1], choices))
         for t in seen:
-            all_terms.add(t)
+            if not (isinstance(t, tuple) and t and t[0] == "some-of"):
+                all_terms.add(t)
         if ret == ("const", 1, "bool"):
             if not any(seen.values()):
                 problems.append("returns true with no attack term established")
@@ -124,7 +138,11 @@ def bool_query_terms(tree):
             if t is None or not t[1]:
                 problems.append("returns %s" % show(ret))
             else:
-                all_terms.add(t[0])
+                if isinstance(t[0], tuple) and t[0] and t[0][0] == "multi":
+                    for t1 in t[0][1]:
+                        all_terms.add(t1)
+                else:
+                    all_terms.add(t[0])
                 if any(seen.values()):
                     problems.append("falls through to the last term although an earlier one was non-empty")
     return all_terms, problems
